@@ -162,8 +162,8 @@ pub fn def() -> PropertyDef {
         rule: "ciphertexts reached by generated operation programs (multiplication-heavy, so budgets are driven to 0) over BFV/BGV parameter sets with 1..6 primes of 20..60 bits, all levels; for every fresh and every computed ciphertext the library's invariant_noise_budget is compared with max(0, bits(Q) - bits(||[t c(s)]_Q||) - 1) computed from the secret key by naive per-prime convolution, own CRT and exact centered norm (BGV: without the factor t); fresh budgets against the deterministic lower bound; negate / add / sub / add_many relations; decrypt against the exactly rounded phase outside the 2^-30 tie margin. non-trivial: budget within 3 bits of 0, or size >= 3, or >= 3 primes, or a lower level.",
         assumptions: vec!["secret key brought to coefficient form with the library's inverse NTT (checked ternary; the NTT itself is C09's subject)", "BigU arithmetic (self-tested)"],
         subs: vec![
-            Sub::prop("budget_programs", 60_000, 1_500_000, 0.3, |t| prog_case(cfg7(t), t.pick(10, 20), 8), oracle),
-            Sub::prop("budget_keyswitch_programs", 20_000, 500_000, 0.3, |t| prog_case(prog_param_cfg(t.pick(4, 6), vec![Scheme::BFV, Scheme::BGV]), t.pick(10, 20), 6), oracle),
+            Sub::prop("budget_programs", 150_000, 1_500_000, 0.3, |t| prog_case(cfg7(t), t.pick(10, 20), 8), oracle),
+            Sub::prop("budget_keyswitch_programs", 50_000, 500_000, 0.3, |t| prog_case(prog_param_cfg(t.pick(4, 6), vec![Scheme::BFV, Scheme::BGV]), t.pick(10, 20), 6), oracle),
         ],
     }
 }
